@@ -28,10 +28,9 @@ import (
 	"verif/harness/vf"
 )
 
-const (
-	roundBack = 8          // core.protocolRoundBack (unexported constant; Bridge-checked through behaviour only)
-	modelNow  = 1000000000 // the model's "now"; header times are printed relative to it
-)
+const modelNow = 1000000000 // the model's "now"; header times are printed relative to it
+
+var roundBack = core.VerifC01ProtocolRoundBack() // core.protocolRoundBack
 
 var now0 = time.Now().Unix()
 var acMode bool
@@ -610,7 +609,11 @@ func (g *gen) hcase(res *vf.Result) HCase {
 	certRound := n%params.ACoCHTFrequency == 0
 	// versions: those of the case (1 is the one the header was built for) + look-backs, + a decoy version
 	for _, v := range c.Vers {
-		hc.YVers = append(hc.YVers, YVerS{V: v.V, CP: v.CP, StakeLB: uint64(3 + r.Intn(18)), SeedLB: r.Pick([]uint64{2, 3, 5, 8, 8, 9, 12}), Future: 30})
+		y := YVerS{V: v.V, CP: v.CP, StakeLB: uint64(3 + r.Intn(18)), SeedLB: r.Pick([]uint64{2, 3, 5, 8, 8, 9, 12}), Future: 30}
+		if r.Chance(75) { // as in the real parameters: the stake look-back is the longer one
+			y.StakeLB = y.SeedLB + uint64(1+r.Intn(14))
+		}
+		hc.YVers = append(hc.YVers, y)
 	}
 	hc.YVers = append(hc.YVers, YVerS{V: 9, CP: CPS{c.CP.PT + 1, c.CP.VT + uint64(2+r.Intn(9)), c.CP.CVT + 3}, StakeLB: uint64(3 + r.Intn(18)), SeedLB: r.Pick([]uint64{2, 4, 8, 11}), Future: 30})
 	exp := hc.YVers[0]
@@ -795,6 +798,40 @@ func (g *gen) hcase(res *vf.Result) HCase {
 			}
 		}
 	}
+	// the validator set changes along the chain.  VR 0 / 1 are the sets the header's votes were
+	// made by; "older" is what the set looked like before a member joined, came online or raised
+	// its stake, "newer" what it looks like afterwards.
+	if !ac {
+		seedN, stakeN := lbnum(n, exp.SeedLB), lbnum(n, exp.StakeLB)
+		es, ek := ents[seedN], ents[stakeN]
+		if es != nil && ek != nil && seedN != stakeN && ek.VR == 0 {
+			switch r.Intn(5) {
+			case 0, 1: // (a) voted by the right set; the set at the seed look-back height is already a newer one
+				es.VR = 5
+				hc.Readers = append(hc.Readers, ReaderS{VR: 5, LB: g.newerSet(c.LB)})
+				res.Count("hforge:set_changed_after_stake_look_back")
+			case 2: // (b) voted by the set found at the SEED look-back height; the stake look-back height holds the older set
+				es.VR, ek.VR = 0, 3
+				hc.Readers = append(hc.Readers, ReaderS{VR: 3, LB: g.olderSet(c.LB, c.H.Val.Votes)})
+				res.Count("hforge:voted_by_the_set_at_the_seed_look_back")
+			}
+		}
+		if certRound {
+			cs, ck := ents[lbnum(n, params.ACoCHTFrequency)], ents[lbnum(n, 2*params.ACoCHTFrequency)]
+			if cs != nil && ck != nil && cs != ck && ck.VR == 1 && cs.VR != 0 && cs.VR != 3 {
+				switch r.Intn(5) {
+				case 0, 1:
+					cs.VR = 6
+					hc.Readers = append(hc.Readers, ReaderS{VR: 6, LB: g.newerSet(c.CertLB)})
+					res.Count("hforge:certificate_set_changed_after_its_look_back")
+				case 2: // certificate votes by the set found one CHT period back instead of two
+					cs.VR, ck.VR = 1, 4
+					hc.Readers = append(hc.Readers, ReaderS{VR: 4, LB: g.olderSet(c.CertLB, c.H.Cert.Votes)})
+					res.Count("hforge:certificates_by_the_set_one_period_back")
+				}
+			}
+		}
+	}
 	// the same-hash header is already canonical at this height (a header-only pass stored it
 	// without looking at its votes); the votes of the one under verification must still count
 	if !ac && r.Chance(18) {
@@ -832,6 +869,69 @@ func (g *gen) hcase(res *vf.Result) HCase {
 		}
 	}
 	return hc
+}
+
+// olderSet: the set before its heaviest voter joined (or came online / raised its stake)
+func (g *gen) olderSet(lb LBS, votes []VoteS) LBS {
+	r := g.r
+	out := LBS{Phantom: lb.Phantom, ZeroTotal: lb.ZeroTotal}
+	out.Vals = append(out.Vals, lb.Vals...)
+	if len(out.Vals) == 0 {
+		return out
+	}
+	// the member whose vote weighs most in the header
+	best, bw := r.Intn(len(out.Vals)), uint32(0)
+	for _, v := range votes {
+		if int(v.Idx) < len(out.Vals) && v.Votes >= bw {
+			best, bw = int(v.Idx), v.Votes
+		}
+	}
+	switch r.Intn(4) {
+	case 0: // not yet a validator
+		if len(out.Vals) > 1 {
+			out.Vals = append(out.Vals[:best:best], out.Vals[best+1:]...)
+		} else {
+			out.Vals[best].Status = 0
+		}
+	case 1: // still offline
+		out.Vals[best].Status = 0
+	case 2: // still a house member
+		out.Vals[best].Role = 3
+	default: // stake raised later: a fraction of it, and a second member likewise
+		out.Vals[best].Stake = out.Vals[best].Stake / uint64(3+r.Intn(6))
+		o := r.Intn(len(out.Vals))
+		out.Vals[o].Stake = out.Vals[o].Stake/2 + 1
+	}
+	return out
+}
+
+// newerSet: the set after a validator joined, one went offline and stakes moved
+func (g *gen) newerSet(lb LBS) LBS {
+	r := g.r
+	out := LBS{Phantom: lb.Phantom, ZeroTotal: lb.ZeroTotal}
+	out.Vals = append(out.Vals, lb.Vals...)
+	used := map[int]bool{}
+	for _, v := range out.Vals {
+		used[v.Key] = true
+	}
+	for k := 0; k < nKeys; k++ {
+		if !used[k] {
+			out.Vals = append(out.Vals, ValS{Key: k, Bls: k, Role: 2, Status: 1, Stake: uint64(50 + r.Intn(3000))})
+			break
+		}
+	}
+	if len(out.Vals) > 1 {
+		i := r.Intn(len(out.Vals) - 1)
+		switch r.Intn(3) {
+		case 0:
+			out.Vals[i].Status = 1 - out.Vals[i].Status&1
+		case 1:
+			out.Vals[i].Stake = out.Vals[i].Stake*3 + 7
+		default:
+			out.Vals[i].Stake = out.Vals[i].Stake / 2
+		}
+	}
+	return out
 }
 
 var hverdictNames = map[int]string{15: "reject:no_header_for_version", 16: "reject:version_of_look_back_unknown", 17: "reject:future_block",
